@@ -15,8 +15,24 @@ let show_shost = function
   | SIpv6 p -> "6" ^ show_list p
   | SEmpty -> "e"
 
+(* the host parser / serializer of the Standard are Spec/WhatwgHostParse.v (assembled from the
+   independent Spec/WhatwgHost.v); only "domain to ASCII" is answered by the harness (oracle "idna":
+   percent-decoded bytes -> ASCII domain or ~).  SPEC_DRIVER_HOST_ORACLE=1 falls back to asking the
+   real crate for whole hosts (shp/shs). *)
+let host_via_oracle = (try Sys.getenv "SPEC_DRIVER_HOST_ORACLE" = "1" with Not_found -> false)
+let idna_cache : (string, n list option) Hashtbl.t = Hashtbl.create 64
+let o_idna bytes =
+  let key = show_list bytes in
+  match Hashtbl.find_opt idna_cache key with
+  | Some r -> r
+  | None ->
+    let r = parse_opt parse_list (ask_oracle "idna" key) in
+    if Hashtbl.length idna_cache > 100000 then Hashtbl.reset idna_cache;
+    Hashtbl.replace idna_cache key r; r
+
 let host_cache : (string, spec_host option) Hashtbl.t = Hashtbl.create 64
 let o_host_parse is_opaque l =
+  if not host_via_oracle then spec_host_parser o_idna is_opaque l else
   let key = show_bool is_opaque ^ "," ^ show_list l in
   match Hashtbl.find_opt host_cache key with
   | Some r -> r
@@ -35,6 +51,7 @@ let o_host_parse is_opaque l =
     Hashtbl.replace host_cache key r; r
 
 let o_host_serialize h =
+  if not host_via_oracle then spec_host_serializer h else
   match h with
   | SDomain d -> d
   | SOpaque s -> s
